@@ -117,7 +117,7 @@ func (tpl *Template) newContextForExecution(context Context) (*Template, *Execut
 			// Check for clashes with macro names: those of the template and
 			// of every template it extends (the document that is executed is
 			// the root ancestor's)
-			for k := range newContext {
+			for _, k := range newContext.sortedKeys() {
 				for t := tpl; t != nil; t = t.parent {
 					if _, has := t.exportedMacros[k]; has {
 						return parent, nil, &Error{
